@@ -380,6 +380,26 @@ func augmentOriginalFile(file *ast.File, overrides map[string]overrideInfo) {
 				}
 			}
 		case *ast.GenDecl:
+			if isPositionalConstGroup(d) {
+				// The value of a constant in such a group depends on the position
+				// of its specification (iota) or on the preceding specifications
+				// (implicit repetition), so the overridden names are blanked
+				// and the specifications are kept, unless nothing is left.
+				allBlank := true
+				for _, spec := range d.Specs {
+					for _, name := range spec.(*ast.ValueSpec).Names {
+						if _, ok := overrides[name.Name]; ok {
+							anyChange = true
+							name.Name = `_`
+						}
+						allBlank = allBlank && name.Name == `_`
+					}
+				}
+				if allBlank {
+					file.Decls[i] = nil
+				}
+				continue
+			}
 			for j, spec := range d.Specs {
 				switch s := spec.(type) {
 				case *ast.TypeSpec:
@@ -438,6 +458,32 @@ func augmentOriginalFile(file *ast.File, overrides map[string]overrideInfo) {
 		finalizeRemovals(file)
 		pruneImports(file)
 	}
+}
+
+// isPositionalConstGroup determines if the given declaration is a parenthesized
+// group of constants which uses iota or the implicit repetition of the previous
+// expression list, i.e. removing one specification from the group would change
+// the values of the other constants in the group.
+func isPositionalConstGroup(d *ast.GenDecl) bool {
+	if d.Tok != token.CONST || !d.Lparen.IsValid() {
+		return false
+	}
+	positional := false
+	for _, spec := range d.Specs {
+		s := spec.(*ast.ValueSpec)
+		if len(s.Values) == 0 {
+			return true
+		}
+		for _, value := range s.Values {
+			ast.Inspect(value, func(n ast.Node) bool {
+				if id, ok := n.(*ast.Ident); ok && id.Name == `iota` {
+					positional = true
+				}
+				return !positional
+			})
+		}
+	}
+	return positional
 }
 
 // isOnlyImports determines if this file is empty except for imports.
